@@ -18,3 +18,5 @@ func verifEvict(c *Cache, d int64) {}
 func verifEvictCancel(e *EventSubscription) {}
 
 func verifResetDropped(rs *ResourceSubscription) {}
+
+func verifBusy(d int64) {}
